@@ -81,8 +81,15 @@ def _snapshot(w):
             return repr(ui.bounding_box.bounding_box())
         except NotImplementedError:
             return "no box"
+    def inv_state(t):
+        # a user-supplied inverse is the caller's model: its parameters and what it gives as its own inverse are not a query's to change
+        ui = getattr(t, "_user_inverse", None)
+        if ui is None:
+            return None
+        return [[float(x) for x in ui.parameters], id(getattr(ui, "_user_inverse", None))]
     return {"frames": list(w.available_frames),
             "user_inverse_boxes": [None if s.transform is None else inv_box(s.transform) for s in w.pipeline],
+            "user_inverse_state": [None if s.transform is None else inv_state(s.transform) for s in w.pipeline],
             "params": [None if s.transform is None else [float(x) for x in s.transform.parameters] for s in w.pipeline],
             "tids": [id(s.transform) for s in w.pipeline],
             "bbox": box, "pixel_shape": None if w.pixel_shape is None else list(w.pixel_shape)}
@@ -128,8 +135,12 @@ def _ask(w, q):
                 keep = None if crpix is None else crpix.copy()
                 deg = copy.deepcopy(q.get("degree", 3))      # (a copy: the recorded case must stay what was generated)
                 deg_keep = list(deg) if isinstance(deg, list) else deg
-                h = w.to_fits_sip(degree=deg, max_pix_error=100, max_inv_pix_error=100, npoints=8, crpix=crpix)
+                tol = np.array(100.0)        # the tolerances as 0-d arrays (what indexing a table of requirements gives)
+                itol = np.array(100.0)
+                h = w.to_fits_sip(degree=deg, max_pix_error=tol, max_inv_pix_error=itol, npoints=8, crpix=crpix)
                 if crpix is not None and not np.array_equal(crpix, keep):
+                    return {"err": "args_mutated"}
+                if float(tol) != 100.0 or float(itol) != 100.0:
                     return {"err": "args_mutated"}
                 if deg != deg_keep:
                     return {"err": "args_mutated"}
